@@ -98,6 +98,7 @@ PLANS = {
         'deadline': {'quick': 420, 'thorough': 2400},
         'jobs': [
             job('search', 'search', 'C12', {'quick': 6, 'thorough': 8}, 0, wit=['c12_sequence_checked', 'c12_multi_candidate']),
+            job('search-fault', 'search-fault', 'C12', {'quick': 5, 'thorough': 5}, 1, wit=['fault_fired', 'c12_sequence_checked']),
             job('search-reinit', 'search-reinit', 'C12', {'quick': 5, 'thorough': 5}, 0, wit=['c12_reinit_changed_search_list']),
         ],
     },
